@@ -84,6 +84,9 @@ def boundary(mon: str, where: str, kind: str, left: Any, right: Any, fn: Any) ->
 
 
 def scalar_forms(rng: Any, s: Any) -> Any:
+    if rng.integers(4) == 0:
+        # values that are not exactly representable in a narrow dtype (pytrees of mixed dtypes: each leaf is scaled in its own precision)
+        return float(gen.pick(rng, [0.1, 1 / 3, -0.7, 3.3]))
     k = gen.scalar_value(rng, s)
     if isinstance(k, (np.ndarray, np.floating)) and gen.X64 and gen.data_dtype(s).itemsize < 8:
         if rng.integers(2):
@@ -154,7 +157,19 @@ def case_tree(rng: Any, ctx: Ctx, index: int) -> None:
             cur = boundary(mon, f'+{trace[-1]}', 'pos', c0, None, lambda: +c0)
         else:  # construction shortcuts
             c0 = cur
-            which = gen.pick(rng, ['I@', '@I', 'h@h', 'inv@', '@inv'])
+            which = gen.pick(rng, ['I@', '@I', 'h@h', 'inv@', '@inv', 'inv@similar'])
+            if which == 'inv@similar':
+                # the inverse of one operator next to a DIFFERENT operator of the same class built from the same array object
+                from furax._base.diagonal import DiagonalOperator
+                dt = gen.data_dtype(c0.out_structure())
+                sq = gen.S((3, 3), dt)
+                d = gen.dy(rng, (3,), dt, nonzero=True)
+                d0 = DiagonalOperator(d, axis_destination=0, in_structure=sq)
+                d1 = DiagonalOperator(d, axis_destination=1, in_structure=sq)
+                pair = (d0.I, d1) if rng.integers(2) else (d1, d0.I)
+                boundary(mon, 'inverse@same-arrays-other-operator', 'matmul', pair[0], pair[1], lambda: pair[0] @ pair[1])
+                LOG.count('C02.shortcut', 'inv@similar')
+                continue
             if which == 'I@':
                 i = IdentityOperator(c0.out_structure())
                 cur = boundary(mon, f'identity@{trace[-1]}', 'matmul', i, c0, lambda: i @ c0)
